@@ -9,7 +9,8 @@ A file description:
    "row_groups": [{"pages": [[row, ...], ...]  per row group: list of pages, each a list of rows (tuples of values or None),
                    "stats": {col_idx: {"min": v, "max": v, "null_count": n} | "absent"} (default: exact),
                    }],
-   "page_version": 1|2, "dictionary": bool, "codec": "UNCOMPRESSED"|"GZIP", "level_runs": "rle"|"bitpacked"|"mixed",
+   "page_version": 1|2, "dictionary": bool, "value_encoding": "plain"|"delta"|"bss", "delta_block": (block, miniblocks),
+   "delta_strings": "length"|"prefix", "codec": "UNCOMPRESSED"|"GZIP", "level_runs": "rle"|"bitpacked"|"mixed",
    "lies": {field_path: value}}   # for fault injection
 """
 import struct, zlib, io
@@ -94,6 +95,7 @@ PTYPE = {"BOOLEAN": 0, "INT32": 1, "INT64": 2, "INT96": 3, "FLOAT": 4, "DOUBLE":
 CONVERTED = {"UTF8": 0, "DATE": 6, "UINT_8": 11, "UINT_16": 12, "UINT_32": 13, "UINT_64": 14, "INT_8": 15, "INT_16": 16, "INT_32": 17, "INT_64": 18,
              "TIMESTAMP_MILLIS": 9, "TIMESTAMP_MICROS": 10}
 ENC_PLAIN, ENC_RLE, ENC_RLE_DICT = 0, 3, 8
+ENC_DELTA_BINARY_PACKED, ENC_DELTA_LENGTH_BYTE_ARRAY, ENC_DELTA_BYTE_ARRAY, ENC_BYTE_STREAM_SPLIT = 5, 6, 7, 9
 CODEC = {"UNCOMPRESSED": 0, "GZIP": 2}
 
 
@@ -161,6 +163,153 @@ def rle_hybrid(values, width, mode="rle"):
     return bytes(out)
 
 
+def _pack_bits(vals, width):
+    acc, bits = 0, 0
+    for v in vals:
+        acc |= v << bits
+        bits += width
+    return acc.to_bytes((bits + 7) // 8, "little")
+
+
+JUNK_WIDTHS = False     # widths of unneeded miniblocks: "should be zero, but readers must accept arbitrary values"
+
+
+def delta_binary_packed(vals, bits=64, block=128, minis=4):
+    """DELTA_BINARY_PACKED (Encodings.md #5). vals are signed integers of the given width; deltas wrap in two's
+    complement. block is a multiple of 128, block/minis a multiple of 32."""
+    assert block % 128 == 0 and block % minis == 0 and (block // minis) % 32 == 0
+    mask = (1 << bits) - 1
+
+    def signed(x):
+        x &= mask
+        return x - (1 << bits) if x >> (bits - 1) else x
+    out = bytearray(varint(block) + varint(minis) + varint(len(vals)))
+    out += varint(zigzag(vals[0], 64) & ((1 << 64) - 1)) if vals else varint(0)
+    deltas = [signed(vals[i] - vals[i - 1]) for i in range(1, len(vals))]
+    per = block // minis
+    for b in range(0, len(deltas), block):
+        blk = deltas[b:b + block]
+        mind = min(blk)
+        out += varint(zigzag(mind, 64) & ((1 << 64) - 1))
+        adj = [(d - mind) & mask for d in blk]
+        widths, bodies = [], []
+        for m in range(minis):
+            mb = adj[m * per:(m + 1) * per]
+            if not mb:
+                widths.append(7 if JUNK_WIDTHS else 0)
+                continue
+            w = max(v.bit_length() for v in mb)
+            widths.append(w)
+            bodies.append(_pack_bits(mb + [0] * (per - len(mb)), w) if w else b"")
+        out += bytes(widths)
+        for bd in bodies:
+            out += bd
+    return bytes(out)
+
+
+def delta_length_byte_array(vals):
+    bs = [v.encode() if isinstance(v, str) else bytes(v) for v in vals]
+    return delta_binary_packed([len(b) for b in bs], 32) + b"".join(bs)
+
+
+def delta_byte_array(vals):
+    bs = [v.encode() if isinstance(v, str) else bytes(v) for v in vals]
+    prefix, suffix, prev = [], [], b""
+    for b in bs:
+        k = 0
+        while k < len(b) and k < len(prev) and b[k] == prev[k]:
+            k += 1
+        prefix.append(k)
+        suffix.append(b[k:])
+        prev = b
+    return delta_binary_packed(prefix, 32) + delta_length_byte_array(suffix)
+
+
+def byte_stream_split(ptype, vals):
+    raw = plain(ptype, vals)
+    k = {"INT32": 4, "FLOAT": 4, "INT64": 8, "DOUBLE": 8}[ptype]
+    return b"".join(bytes(raw[i * k + j] for i in range(len(vals))) for j in range(k))
+
+
+# --- self-check: a decoder written from the format text only, used by setup to cross-check the encoders above
+def _rd_varint(b, pos):
+    n, sh = 0, 0
+    while True:
+        c = b[pos]
+        pos += 1
+        n |= (c & 0x7F) << sh
+        sh += 7
+        if not c & 0x80:
+            return n, pos
+
+
+def _unzig(n):
+    return (n >> 1) ^ -(n & 1)
+
+
+def _dec_dbp(b, pos, bits):
+    block, pos = _rd_varint(b, pos)
+    minis, pos = _rd_varint(b, pos)
+    total, pos = _rd_varint(b, pos)
+    first, pos = _rd_varint(b, pos)
+    mask = (1 << bits) - 1
+
+    def signed(x):
+        x &= mask
+        return x - (1 << bits) if x >> (bits - 1) else x
+    out = [signed(_unzig(first))] if total else []
+    per = block // minis
+    while len(out) < total:
+        mind, pos = _rd_varint(b, pos)
+        mind = _unzig(mind)
+        widths = b[pos:pos + minis]
+        pos += minis
+        for w in widths:
+            if len(out) >= total:
+                break
+            nbytes = (w * per + 7) // 8
+            acc = int.from_bytes(b[pos:pos + nbytes], "little")
+            pos += nbytes
+            for i in range(per):
+                if len(out) >= total:
+                    break
+                d = (acc >> (i * w)) & ((1 << w) - 1) if w else 0
+                out.append(signed(out[-1] + d + mind))
+            if len(out) >= total:
+                break
+    return out, pos
+
+
+def selftest():
+    import random
+    rng = random.Random(7)
+    for bits in (32, 64):
+        lo, hi = -(1 << (bits - 1)), (1 << (bits - 1)) - 1
+        for n in (0, 1, 2, 31, 32, 33, 127, 128, 129, 130, 257, 700):
+            for style in ("seq", "rand", "extreme", "const"):
+                v = {"seq": [i * 3 for i in range(n)], "rand": [rng.randint(-1000, 1000) for _ in range(n)],
+                     "extreme": [rng.choice([lo, hi, 0, -1, 1]) for _ in range(n)], "const": [5] * n}[style]
+                for block, minis in ((128, 4), (256, 8), (128, 1)):
+                    got, _ = _dec_dbp(delta_binary_packed(v, bits, block, minis), 0, bits)
+                    assert got == v, (bits, n, style, block, minis)
+    strs = [b"", b"a", b"ab", b"abc", b"abd", b"x" * 40, b"x" * 39 + b"y", b""]
+    enc = delta_length_byte_array(strs)
+    lens, pos = _dec_dbp(enc, 0, 32)
+    assert lens == [len(x) for x in strs] and enc[pos:] == b"".join(strs)
+    enc = delta_byte_array(strs)
+    pre, pos = _dec_dbp(enc, 0, 32)
+    sl, pos = _dec_dbp(enc, pos, 32)
+    out, prev = [], b""
+    for k, ln in zip(pre, sl):
+        cur = prev[:k] + enc[pos:pos + ln]
+        pos += ln
+        out.append(cur)
+        prev = cur
+    assert out == strs and pos == len(enc)
+    assert byte_stream_split("INT32", [0x04030201, 0x08070605]) == bytes([1, 5, 2, 6, 3, 7, 4, 8])
+    return True
+
+
 def stat_bytes(ptype, v):
     if ptype == "BOOLEAN":
         return b"\x01" if v else b"\x00"
@@ -185,6 +334,9 @@ def write(desc):
     use_dict = desc.get("dictionary", False)
     lmode = desc.get("level_runs", "rle")
     lies = desc.get("lies", {})
+    venc_mode = desc.get("value_encoding", "plain")      # "plain" | "delta" | "bss" (non-dictionary pages)
+    global JUNK_WIDTHS
+    JUNK_WIDTHS = bool(desc.get("delta_junk_widths"))
     buf = io.BytesIO()
     buf.write(b"PAR1")
     regions = {"magic_head": (0, 4)}
@@ -237,6 +389,17 @@ def write(desc):
                     r = rle_hybrid([1 if v else 0 for v in nn], 1, lmode)
                     vbytes = struct.pack("<I", len(r)) + r
                     venc = ENC_RLE
+                elif venc_mode == "delta" and pt in ("INT32", "INT64"):
+                    blk, mn = desc.get("delta_block", (128, 4))
+                    vbytes = delta_binary_packed(nn, 32 if pt == "INT32" else 64, blk, mn)
+                    venc = ENC_DELTA_BINARY_PACKED
+                elif venc_mode == "delta" and pt == "BYTE_ARRAY":
+                    if desc.get("delta_strings", "length") == "length":
+                        vbytes, venc = delta_length_byte_array(nn), ENC_DELTA_LENGTH_BYTE_ARRAY
+                    else:
+                        vbytes, venc = delta_byte_array(nn), ENC_DELTA_BYTE_ARRAY
+                elif venc_mode == "bss" and pt in ("INT32", "INT64", "FLOAT", "DOUBLE"):
+                    vbytes, venc = byte_stream_split(pt, nn), ENC_BYTE_STREAM_SPLIT
                 else:
                     vbytes = plain(pt, nn)
                     venc = ENC_PLAIN
